@@ -25,7 +25,8 @@ LEANCHECK_MODULES = ['Lomond.Model.Threads', 'Lomond.Model.ThreadsN', 'Lomond.Pr
 
 def msg(t, i, kind='t'):
     """distinct messages that share long substrings, so that deflate blocks refer back to earlier messages"""
-    s = 'lomond interleaving payload, lomond interleaving payload #%d.%d' % (t, i)
+    # (braces and percent signs first: texts that end up in an error message must not be read as a format string)
+    s = '{x} {0} {} %%s lomond interleaving payload, lomond interleaving payload #%d.%d' % (t, i)
     return s.encode().hex()
 
 
@@ -35,7 +36,7 @@ def prog(t, kinds):
         if k in ('st1', 'st0', 'sb1', 'sb0'):
             out.append('%s=%s' % (k, msg(t, i)))
         elif k in ('pi', 'po', 'rp'):
-            out.append('%s=%s' % (k, ('p%d.%d' % (t, i)).encode().hex()))
+            out.append('%s=%s' % (k, ('{p} {0} %%d p%d.%d' % (t, i)).encode().hex()))
         elif k in ('rm', 'rm2'):
             # a compressed message from the server; long repeats, so that a fragment refers back to the one before
             out.append('%s=%s' % (k, ('server message %d.%d, server message, lomond interleaving payload' % (t, i)).encode().hex()))
@@ -90,6 +91,15 @@ def big_case():
     """a frame larger than the 64 KiB receive/transfer buffer against a small frame of another thread"""
     big = bytes((i * 7 + 3) % 251 for i in range(70000)).hex()
     return dict(z=0, progs=[['sb0=' + big], ['pi=' + b'p1.0'.hex(), 'st0=' + msg(1, 1)]], pb=None, family='plain-big-frame')
+
+
+def big_deflate_case():
+    """a message that is still larger than the 64 KiB buffer AFTER deflate (pseudo-random octets) against a message of another
+    thread that repeats a part of its last 32 KiB: whichever goes through the compressor second refers back to the first"""
+    r = random.Random(11)
+    big = bytes(r.getrandbits(8) for _ in range(100 * 1000))
+    echo = big[-2000:-1000]
+    return dict(z=1, progs=[['sb1=' + big.hex()], ['sb1=' + echo.hex(), 'pi=' + b'p1.1'.hex()]], pb=None, family='deflate-big-frame')
 
 
 def witnesses():
@@ -176,6 +186,7 @@ def families(tier):
         case(0, [['st0'], ['sb0']], family='plain'),
         case(0, [['st0', 'pi'], ['sb0', 'po']], family='plain'),
         big_case(),
+        big_deflate_case(),
         case(1, [['st1'], ['st1']], family='deflate'),
         case(2, [['st1'], ['sb1']], family='deflate-reset'),
         case(1, [['st1'], ['sb0']], family='deflate'),
